@@ -6,6 +6,7 @@ import Driver.Lit
 import Driver.Ssbs
 import Driver.Writer
 import Driver.Static
+import Driver.Cli
 open Lean Drv
 
 /-- dispatch on the prefix of "op" -/
@@ -20,6 +21,7 @@ def dispatch (j : Json) : R Json := do
   | "ssbs" => SsbsD.handle op j
   | "writer" => WriterD.handle op j
   | "static" => StaticD.handle op j
+  | "cli" => CliD.handle op j
   | _ => throw s!"unknown op {op}"
 
 partial def loop (h : IO.FS.Stream) (out : IO.FS.Stream) : IO Unit := do
